@@ -170,10 +170,12 @@ def gen_case(rnd, st):
         # codes in use: short ones, the wide ICARTT code with 7 significant
         # digits, a fractional one, a large positive one
         miss = rnd.choice([-999, -9999, -99999, -888, -9999999, -8888888,
-                           -777.5, 1e20])
+                           -777.5, 1e20, 0, 0])
         vals, mask = [], []
         for k in range(nrec):
             vals.append(rnd.choice(mags) * rnd.choice([1, 1, -1, 2.5]))
+            if miss == 0 and vals[-1] == 0:
+                vals[-1] = 1.0      # (a valid value never equals the code)
             mask.append(1 if rnd.random() < 0.25 else 0)
             if not scaled and rnd.random() < 0.15:
                 # (seven significant digits: not in the scaled-text cases)
